@@ -14,7 +14,10 @@ def freeze(v: Any, depth: int = 0) -> Any:
     if isinstance(v, dict):
         return ("map",) + tuple((freeze(k, depth + 1), freeze(x, depth + 1)) for k, x in v.items())
     if isinstance(v, (list, tuple)) or type(v).__name__ == "deque":
-        return ("seq",) + tuple(freeze(x, depth + 1) for x in v)
+        # a container's bound is behaviour (what gets evicted next), so it is part of the state identity: two states that differ
+        # only in it must not be merged by the search (an unbounded window after clear() would otherwise hide behind a bounded one)
+        bound = getattr(v, "maxlen", None)
+        return ("seq", bound) + tuple(freeze(x, depth + 1) for x in v)
     if isinstance(v, (set, frozenset)):
         return ("set",) + tuple(sorted(repr(x) for x in v))
     return repr(v)
